@@ -258,6 +258,52 @@ def _range_ghost(v):
     ]
 
 
+def _init_result(a, ctx):
+    """at a call site: the freshly constructed object (attributes materialised, facts come from the postcondition)"""
+    from pyvc.sym import sym_range, range_axioms, tb
+    o = a.self
+    names = _plain(a.names)
+    samples = _idl_items(a.samples)
+    idl = _idl_items(a.idl)
+    if not all(isinstance(n, str) for n in names) or len(set(names)) != len(names):
+        from pyvc.sym import CheckerError
+        raise CheckerError("Obs(...) call site with names the contract cannot materialise: %r" % (names,))
+    attrs = {"names": CList(sorted(names), "list"), "shape": CDict(), "r_values": CDict(), "deltas": CDict(), "idl": CDict(),
+             "_covobs": CDict(), "reweighted": False, "tag": None, "_dvalue": Fraction(0), "ddvalue": Fraction(0)}
+    total = 0
+    for i in sorted(range(len(names)), key=lambda i: names[i]):
+        cn, s = names[i], samples[i]
+        n = Len(s)
+        given = idl[i] if idl is not None else None
+        if given is None:
+            attrs["idl"].d[cn] = SRange(1, n + 1 if isinstance(n, int) else n + 1, 1, clen=n)
+        elif is_range(given):
+            attrs["idl"].d[cn] = given
+        else:
+            spaced = And(n >= 2, ForAll(0, n - 1, lambda k, given=given: At(given, k + 1) - At(given, k) == At(given, 1) - At(given, 0)))
+            if isinstance(spaced, bool):
+                isr = spaced
+            else:
+                isr = ctx.branch(tb(spaced))
+            if isr:
+                r = sym_range("newidl", At(given, 0), At(given, 1) - At(given, 0), n)
+                for ax in range_axioms(r):
+                    ctx.assume(wrap(ax))
+                attrs["idl"].d[cn] = r
+            else:
+                attrs["idl"].d[cn] = given if isinstance(given, (SSeq, CList)) else given
+        attrs["shape"].d[cn] = n
+        d = SSeq.fresh("newdeltas." + cn, "ndarray", "real")
+        d.length = n
+        attrs["deltas"].d[cn] = d
+        attrs["r_values"].d[cn] = SReal(z3.Real(fresh("newr." + cn)))
+        total = total + n
+    attrs["N"] = total
+    attrs["_value"] = SReal(z3.Real(fresh("newvalue")))
+    o.attrs.update(attrs)
+    return o
+
+
 contract(
     REL + "::Obs.__init__", props=["C04"],
     params=dict(self=Custom(lambda n, c, s: SObj("Obs", {}), native=lambda v, ev: None, random=lambda rng, s: None),
@@ -266,6 +312,7 @@ contract(
     writes=("self",),
     raises=[("ValueError", _value_error), ("TypeError", _type_error)],
     ensures=_init_post,
+    result=_init_result,
     ghost_on=[(_is_range_from_list, _range_ghost)],
     native_call=_native_init,
     crosscheck=False,
